@@ -5,7 +5,7 @@ import os
 from . import common as C
 
 LEVEL_TEXT = {
-    "C01": ("exploration", "Model-based property test: rapidcheck-generated call histories over four interacting containers are executed against std::vector<int> models; values, sizes, returned positions/references and at() behaviour are compared after every operation, across 14 (quick) / ~46 (thorough) configurations of element flavour x inline capacities x allocator. Search, not proof.", "§4 C01"),
+    "C01": ("exploration", "Model-based property test: rapidcheck-generated call histories over four interacting containers are executed against std::vector<int> models; values, sizes, returned positions/references and at() behaviour are compared after every operation, across 18 (quick) / ~50 (thorough) configurations of element flavour x inline capacities x allocator. Inputs of a different value type (68 From->To pairs x 11 iterator kinds x range ctor/assign/insert/append/emplace) are compared with the same call on std::vector<To>. Search, not proof.", "§4 C01"),
     "C02": ("exploration", "Invariant probe (size/capacity/inlined/data()-inside-object/ledger block/contiguity/iterator agreement/canaries) evaluated on every container after every generated operation, including moved-from and shrunk-back states; post-throw states are covered by the C06 fault enumeration which runs the same probe.", "§4 C02"),
     "C03": ("exploration", "Address-keyed element registry traps construct-over-live, destroy/assign/read of dead storage; after every operation the live set must be exactly the containers' elements, and empty after teardown.", "§4 C03"),
     "C04": ("exploration", "Allocator ledger (block, n, allocating id) traps unknown/mismatched deallocation; after every operation live blocks must be exactly the heap containers' buffers; allocate calls are counted per operation against the 'fits => no allocate' rule, and a small-only generator mode checks that containers that never exceed N never touch the allocator.", "§4 C04"),
@@ -89,7 +89,7 @@ ENGINES = [
     {"name": "lim", "path": "harness/lim_main.cpp", "serves_properties": ["C12"], "kind_free_text": "narrow size_type / small max_size() allocators, exhaustive and boundary-biased enumeration"},
     {"name": "cmp", "path": "harness/cmp_main.cpp", "serves_properties": ["C16"], "kind_free_text": "comparison / non-member differential against std::vector, 4 toolchain builds"},
     {"name": "grid", "path": "vlib/grid.py (generates translation units)", "serves_properties": ["C18", "C19"], "kind_free_text": "generated TUs tabulating compile-time facts over configuration grids, oracle in Python"},
-    {"name": "conv", "path": "harness/conv_main.cpp, harness/archetypes.hpp, vlib/conv.py", "serves_properties": ["C13"], "kind_free_text": "converting-input differential against static_cast / std::vector and archetype compile probes"},
+    {"name": "conv", "path": "harness/conv_main.cpp, harness/archetypes.hpp, vlib/conv.py", "serves_properties": ["C01", "C13"], "kind_free_text": "converting-input differential against static_cast / std::vector and archetype compile probes"},
     {"name": "cx", "path": "harness/cx_interp.hpp, harness/cx_emit.cpp, vlib/cxeng.py", "serves_properties": ["C08"], "kind_free_text": "constexpr interpreter; generated TUs compiled by g++ and clang++, compile-time vs run-time digests"},
     {"name": "xstd", "path": "harness/xstd_main.cpp, vlib/xstd.py", "serves_properties": ["C17"], "kind_free_text": "the interpreter built under every standard/compiler; corpus digests compared"},
     {"name": "gdbpp", "path": "harness/gdb_debuggee.cpp, harness/gdb_check.py, vlib/gdbpp.py", "serves_properties": ["C20"], "kind_free_text": "debuggee + gdb batch script using the shipped pretty-printer and natvis paths"},
